@@ -12,6 +12,12 @@ KIND_TEXT = {"nonlin": "outcome (results + final tree) equal to no sequential or
              "tempdup": "CreateTemp/MkdirTemp handed the same name to two callers"}
 
 
+def case_key(case):
+    """a case without its initial-tree text (which is recomputed by the harness): fs, streams, programs, schedule"""
+    f = case.split(" | ")
+    return (f[0], f[2], f[3], f[4]) if len(f) == 5 else (case,)
+
+
 def load_findings(ctx, name):
     p = os.path.join(ctx.dir, name + ".findings.jsonl")
     out = []
@@ -35,9 +41,9 @@ def run(ctx, kinds):
         if mm is None:
             return
         fs = load_findings(ctx, "conc-witness")
-        by_case = {f["case"]: f for f in fs}
+        by_case = {case_key(f["case"]): f for f in fs}
         for kid, case in wit:
-            f = by_case.get(case)
+            f = by_case.get(case_key(case))
             if f is not None and conckf.classify(f) == kid:
                 reproduced[kid] = f
         for (i, c, m, o) in mm[:2]:
@@ -51,6 +57,11 @@ def run(ctx, kinds):
     for (i, c, m, o) in mm[:2]:
         ctx.violation("conc-tie", "the instrumented MemFS and the extracted model Conc/MemConc.v disagree (same program, same schedule: results / lock trace / final tree differ) on %d explored executions" % len(mm),
                       {"conc_stream": STREAM, "engine": "conc", "case": c, "model": m, "observed": o, "mismatching_cases_in_run": len(mm)})
+    st = ctx.coverage["streams"].get("conc", {})
+    if st.get("coq_witnesses_not_reproduced", 0) or st.get("coq_witnesses_reproduced", 0) != 5:
+        failed = {k: v for k, v in st.items() if k.startswith("coq_witness_failed_")}
+        ctx.violation("conc-witness", "a (program, schedule) witness of Conc/Witness.v (C06_refuted_* / C07_refuted_rename_rename) does not deviate on the real code as the theorem says (%d of 5 reproduced)" % st.get("coq_witnesses_reproduced", 0),
+                      {"engine": "conc", "case": (list(failed.values()) or ["?"])[0].split(" => ")[0], "failed": failed})
     fs = load_findings(ctx, "conc")
     per_class, unclassified = {}, []
     for f in fs:
